@@ -56,7 +56,15 @@ func Harness_C37_proxy() {
 	fwd := zz.NondetBool("hasForwardedFor")
 	multi := zz.NondetBool("multiValuedHeader")
 	knownLen := zz.NondetBool("contentLengthKnown")
-	req := &http.Request{Method: method, URL: &url.URL{Path: "/1/markers/ds", RawQuery: "a=1&b=2"}, Header: http.Header{"X-Custom": {hv}}, RemoteAddr: "10.0.0.9:1234",
+	// the request target as the HTTP server parses it: a plain path, or one with percent-escaped
+	// reserved characters (decoded Path, original RawPath)
+	target := []*url.URL{
+		{Path: "/1/markers/ds", RawQuery: "a=1&b=2"},
+		{Path: "/1/markers/a/b c", RawPath: "/1/markers/a%2Fb%20c", RawQuery: "a=1&b=2"},
+		{Path: "/1/markers/q?x", RawPath: "/1/markers/q%3Fx", RawQuery: "a=1&b=2"},
+	}[zz.Choose("target", 3)]
+	wantURL := "https://api.honeycomb.io" + target.EscapedPath() + "?a=1&b=2"
+	req := &http.Request{Method: method, URL: target, Header: http.Header{"X-Custom": {hv}}, RemoteAddr: "10.0.0.9:1234",
 		Body: &verifBody{data: body}, ContentLength: -1}
 	if knownLen {
 		req.ContentLength = int64(len(body))
@@ -84,7 +92,7 @@ func Harness_C37_proxy() {
 	zz.Assert(verifUpReq != nil, "the request is relayed upstream")
 	if verifUpReq != nil {
 		zz.Assert(verifUpReq.Method == method, "same method")
-		zz.Assert(verifUpReq.URL.String() == "https://api.honeycomb.io/1/markers/ds?a=1&b=2", "same path and query on the Honeycomb API host")
+		zz.Assert(verifUpReq.URL.String() == wantURL, "same path (escapes included) and query on the Honeycomb API host")
 		zz.Assert(string(verifUpReqBody) == string(body), "same body, whether or not its length was announced")
 		zz.Assert(verifUpReq.Header.Get("X-Custom") == hv, "same header values")
 		want := "10.0.0.9:1234"
